@@ -88,14 +88,15 @@ func NewWorld(p *Plan, pool *Pool, t *core.Trace) *World {
 	s := &p.Swarm
 	w.Proto = protocol.Protocol{
 		GenesisTime:            s.GenesisTime,
-		MultihashAlgorithms:    s.HashAlgs,
+		// (the library gets its own copies of the configuration lists: the harness's view must not follow what it does to them)
+		MultihashAlgorithms:    append([]uint(nil), s.HashAlgs...),
 		MaxOperationCount:      s.MaxOpCount,
 		MaxOperationSize:       s.MaxOpSize,
 		MaxOperationHashLength: s.MaxHashLen,
 		MaxDeltaSize:           s.MaxDeltaSize,
-		Patches:                s.Patches,
-		SignatureAlgorithms:    s.SigAlgs,
-		KeyAlgorithms:          s.KeyAlgs,
+		Patches:                append([]string(nil), s.Patches...),
+		SignatureAlgorithms:    append([]string(nil), s.SigAlgs...),
+		KeyAlgorithms:          append([]string(nil), s.KeyAlgs...),
 		MaxOperationTimeDelta:  s.TimeDelta,
 		NonceSize:              s.NonceSize,
 		// parameters the properties never depend on get distinctive values of their own
@@ -108,7 +109,9 @@ func NewWorld(p *Plan, pool *Pool, t *core.Trace) *World {
 		MaxMemoryDecompressionFactor: 3,
 	}
 	w.RefCfg = ref.Config{MaxTimeDelta: s.TimeDelta}
-	w.Parser = operationparser.New(w.Proto)
+	// the parser the applier (and every batch-mode call) uses is configured with a time validator that refuses everything:
+	// anchored operations are judged by their anchoring time alone, the node's clock has no say (C09)
+	w.Parser = operationparser.New(w.Proto, operationparser.WithAnchorTimeValidator(&batchTimeValidator{w: w}))
 	w.Composer = doccomposer.New()
 	w.Applier = operationapplier.New(w.Proto, w.Parser, w.Composer)
 	w.Model = newModelTracker(w)
@@ -287,3 +290,12 @@ func (w *World) Finish() {
 }
 
 var _ = didtransformer.New
+
+// batchTimeValidator is the time validator of the batch-side parser: it must never be consulted.
+type batchTimeValidator struct{ w *World }
+
+func (b *batchTimeValidator) Validate(from, until int64) error {
+	b.w.T.Probe("time_validator_consulted_in_batch_mode")
+	b.w.violate("C09/time-validator-consulted-for-anchored-operation", "", "the configured time validator was handed (%d, %d) while an anchored operation was parsed (batch mode)", from, until)
+	return fmt.Errorf("operation expired")
+}
